@@ -92,6 +92,11 @@ impl<'a> Lat<'a> {
                             *acc = (*acc).max((vals[*node as usize] + *add).min(MAXCAP));
                         }
                     }
+                    Op::UntrackedBelow { cell, below } => {
+                        if *acc < *below {
+                            *acc = (*acc).max((self.m.cells[*cell as usize] % VMOD).min(*below));
+                        }
+                    }
                     _ => {}
                 }
             }
